@@ -195,8 +195,9 @@ def run_history_case(prog, params):
                                                          'observer %s issued %s(%r) to layer %d' % (op, meth, pth, li), sr))
                 ok_contract = True
                 nf = len(findings)
-                if props & {'C09', 'C01'}:
-                    check_outcome(props, out, exp, op, key_base, findings, sr, t, v, prop='C09')
+                ctag = params.get('tag', 'C09')
+                if props & {'C09', 'C01', ctag}:
+                    check_outcome(props, out, exp, op, key_base, findings, sr, t, v, prop=ctag)
                     ok_contract = len(findings) == nf
                 if exp.status == 'either':
                     t_next, what = t, 'changed_by_setter'
@@ -236,7 +237,7 @@ def run_history_case(prog, params):
                         if 'C09' in props:
                             findings.append(make_finding('C09', key_base + '|%s:%s' % (what, kind), '%s after %s %s: %s %s' % (what, op, v, dv, detail), sr))
                     else:
-                        pr, sym = 'C09', '%s:%s' % (what, kind)
+                        pr, sym = params.get('tag', 'C09'), '%s:%s' % (what, kind)
                     if pr in props:
                         findings.append(make_finding(pr, key_base + '|' + sym, '%s after %s %s: %s %s' % (what, op, v, dv, detail), sr))
                 for dv, kind, cond in obligations:
